@@ -259,6 +259,8 @@ func runSRelay(rc *sk.RunCtx, focus string) {
 		if focus == "C15" {
 			if tp.Chance(1, 3) {
 				mw.at(at, "byzantine-relay-claim", func() { w.byzantineRelayClaim(endpoints) })
+			} else if tp.Chance(1, 4) {
+				mw.at(at, "byzantine-relay-recv-error", func() { w.byzantineRelayRecvError(endpoints) })
 			} else {
 				mw.at(at, "byzantine-relay", func() { w.byzantineRelay() })
 			}
@@ -432,6 +434,69 @@ func (w *srelayWorld) byzantineRelayClaim(endpoints []int) {
 	X.f.SendMessageToHostInfo(header.Control, 0, hi, b, make([]byte, 12), make([]byte, mtu))
 	w.stats["fault.byzantine"]++
 	w.stats["fault.byzantine.relay-claims-peer"]++
+}
+
+// byzantineRelayRecvError: a relay X wraps an unauthenticated recv_error into a relay frame for endpoint B, naming
+// the index of a tunnel B holds DIRECTLY with a third node T (here: the other relay / the lighthouse). A recv_error
+// is honoured only from the underlay address the tunnel talks to; one that arrives inside X's relay frame comes from
+// X, whatever index it names, and must not take B's tunnel with T down.
+func (w *srelayWorld) byzantineRelayRecvError(endpoints []int) {
+	tp := w.tp
+	B := w.nodes[endpoints[tp.Choose(len(endpoints))]]
+	var xs []*simNode
+	for i, nd := range w.nodes {
+		if w.relays[i] && nd.alive && nd != B {
+			xs = append(xs, nd)
+		}
+	}
+	if !B.alive || len(xs) == 0 {
+		return
+	}
+	X := xs[tp.Choose(len(xs))]
+	hiB := X.f.hostMap.QueryVpnAddr(B.vpnAddr())
+	if hiB == nil || hiB.ConnectionState == nil || matchedPeerTunnel(hiB, B) == nil {
+		return
+	}
+	rels := hiB.relayState.CopyAllRelayFor()
+	if len(rels) == 0 {
+		return
+	}
+	rel := rels[tp.Choose(len(rels))]
+	// B's direct tunnels with somebody else than X
+	var targets []*HostInfo
+	for _, h := range sortedHostInfos(B.f.hostMap) {
+		if h.ConnectionState == nil || !h.GetRemote().IsValid() || slices.Contains(X.f.myVpnAddrs, h.vpnAddrs[0]) {
+			continue
+		}
+		targets = append(targets, h)
+	}
+	if len(targets) == 0 {
+		return
+	}
+	T := targets[tp.Choose(len(targets))]
+	inner := header.Encode(make([]byte, header.Len), header.Version, header.RecvError, 0, T.remoteIndexId, 0)
+	if tp.Chance(1, 2) {
+		inner = append(inner, make([]byte, 16+tp.Choose(32))...) // some implementations pad
+	}
+	before := tunnelDigest(T)
+	nOut := len(X.conn.out)
+	X.f.SendVia(hiB, rel, inner, make([]byte, 12), make([]byte, mtu), false, 0)
+	sent := append([]*simDatagram(nil), X.conn.out[nOut:]...)
+	X.conn.out = X.conn.out[:nOut]
+	if len(sent) == 0 {
+		return
+	}
+	w.stats["fault.byzantine"]++
+	w.stats["fault.byzantine.relayed-recv-error"]++
+	w.pump()
+	B.recvBatch(sent)
+	if B.f.hostMap.QueryIndex(T.localIndexId) != T {
+		w.fail("C15", "relay-carried-recv-error-closed-tunnel", "node %d dropped its direct tunnel %d with %v (remote %v) on a recv_error that arrived inside a relay frame from relay node %d: nothing of it is authenticated, and it did not come from the address the tunnel talks to", B.idx, T.localIndexId, T.vpnAddrs, T.GetRemote(), X.idx)
+		return
+	}
+	if after := tunnelDigest(T); after != before {
+		w.fail("C15", "modified-packet-changed-state", "node %d: a recv_error carried by relay node %d changed the state of its direct tunnel with %v\nbefore: %s\nafter:  %s", B.idx, X.idx, T.vpnAddrs, before, after)
+	}
 }
 
 // checkRelayCandidates: the relays a node keeps for reaching peer A (hostinfo(A).relayState) are written by
